@@ -808,6 +808,12 @@ def sec_squashed_real(ck, D):
         return bad, {}
     tame = between(loc + uf_terms(it, "RAND_normal"), -1, 1) + between(sc, Fraction(3, 2), 2) + between(hi + lo, -3, 3) + [h - l_ >= 1 for h, l_ in zip(hi, lo)]
     ck.prove(f"{name}.support{tag}", asm, conj(inb), replay=judge_replay(tr, S, it.uf_apps, jsup), nonlinear=True, margin_goal=mg(tame, conj(inb)))
+    # the same clause on the SATURATED part of the parameter space (pre-squash values >= 12 resp. <= -12, where the logistic is within 1e-5 of its limits
+    # -- bracket axioms of solve.AXIOMS): a sub-case of the obligation above whose counterexamples replay on the real code
+    rn = uf_terms(it, "RAND_normal")
+    for side, cond in (("high", [m >= 12 for m in loc] + [x >= 0 for x in rn]), ("low", [m <= -12 for m in loc] + [x <= 0 for x in rn])):
+        sat_region = cond + between(sc, Fraction(3, 2), 2) + between(hi + lo, -3, 3) + [h - l_ >= 1 for h, l_ in zip(hi, lo)] + [m <= 16 for m in loc] + [m >= -16 for m in loc] + between(rn, -1, 1)
+        ck.prove(f"{name}.support.saturated_{side}{tag}", asm + sat_region, conj(inb), replay=judge_replay(tr, S, it.uf_apps, jsup), nonlinear=True)
     # mode: fallback through the bijector = image of the base mode (= loc) under the squashing the sampler applies
     ns = uf_terms(it, "RAND_normal")
     smp = flat(out["sample"])
